@@ -5,6 +5,7 @@ package main
 import (
 	"fmt"
 	"go/token"
+	"sort"
 	"strings"
 )
 
@@ -47,6 +48,7 @@ func ruleC08(c *Check) {
 	c.expiryScanGuard("C08.4")
 	c.respondNoHeight("C08.5")
 	c.startRules("C08")
+	c.handlersAddNoRejection("C08.6", "MsgRespondService")
 	c.queuePairs("C08")
 	c.contextDeleters("C08")
 	c.queueDeleters("C08")
@@ -63,6 +65,7 @@ func ruleC09(c *Check) {
 	c.contextDeleters("C09")
 	c.callbackRules("C09")
 	c.moduleServiceRunning("C09.7")
+	c.expiredBatchBinding("C09.8")
 }
 
 func ruleC10(c *Check) {
@@ -71,11 +74,13 @@ func ruleC10(c *Check) {
 	c.contextFieldRules("C10", map[string]bool{"update": true, "counter": true})
 	c.requestValidation("C10.3")
 	c.updatesTakeEffect("C10.7")
+	c.constructorRules("C10.8", map[string]bool{"frequency": true})
 	c.queueDeleters("C10")
 	c.heightSkeletons("C10.2")
 	c.paramGettersExact("C10.3", "KeyMaxRequestTimeout")
 	c.newBatchRules("C10", map[string]bool{"issue-without-expiry": true})
 	c.keyGrammar("C10.6", map[string]bool{"0x09": true, "0x10": true, "0x11": true, "0x12": true})
+	c.newBatchDequeue("C10")
 }
 
 func ruleC11(c *Check) {
@@ -95,6 +100,8 @@ func ruleC11(c *Check) {
 	c.moduleWiring("C11.8", map[string]bool{"endblock": true})
 	c.keyGrammar("C11.7", map[string]bool{"0x09": true, "0x10": true, "0x11": true, "0x12": true})
 	c.resetConstants("C11.9")
+	c.expiredRequestRules("C11")
+	c.constructorRules("C11.10", map[string]bool{"frequency": true})
 }
 
 func ruleC12(c *Check) {
@@ -110,6 +117,7 @@ func ruleC12(c *Check) {
 	// a batch that is opened, with or without requests, is completed (and its callback made) at its expiry: the expiry is queued on every path that opens one
 	c.newBatchRules("C12", map[string]bool{"running-no-successor": true, "issue-without-expiry": true})
 	c.startRules("C12")
+	c.constructorRules("C12.7", map[string]bool{"callbacks": true})
 }
 
 func ruleC16(c *Check) {
@@ -398,6 +406,7 @@ func (c *Check) callbackRules(prefix string) {
 			continue
 		}
 		okFilter := false
+		var extraCond []string
 		// the accumulation is written in the function itself or in a closure it hands to the scan
 		units := []*Func{f}
 		for _, g := range c.P.Funcs {
@@ -417,10 +426,17 @@ func (c *Check) callbackRules(prefix string) {
 							okFilter = true
 						}
 					}
+					// and under no further condition on the output: every non-empty output of a stored response is handed on
+					for _, fa := range pa.FactsBefore(i) {
+						if fa.T.Contains(ev.Val.A[1]) && !(!fa.Neg && fa.T.Op == "nonempty" && fa.T.A[0].Eq(ev.Val.A[1])) {
+							extraCond = append(extraCond, fa.String())
+						}
+					}
 				}
 			}
 		}
-		c.req(okFilter, prefix+".callback.nonempty", f.Name, f.Body.Pos(), "outputs are exactly the non-empty Output fields of the scanned responses")
+		sort.Strings(extraCond)
+		c.req(okFilter && len(extraCond) == 0, prefix+".callback.nonempty", f.Name, f.Body.Pos(), "outputs are exactly the non-empty Output fields of the scanned responses"+condStr(len(extraCond) > 0, ": an output is collected only under "+strings.Join(uniq(extraCond), " ∧ ")))
 	}
 	// state callback in the pause-for-funds helper iff module context
 	for _, pa := range c.P.PathsOf(pff) {
